@@ -114,6 +114,44 @@ struct C08 : vr::Driver {
     c.dtOf = [](int l) { return l / 6 ? 2.0 : 1.0; };
     cases.push_back(c);
   }
+  // the ONLY watched cgroup (resolved through a wildcard) may be absent at a tick: an absent cgroup is a non-exceeding sample
+  void addVanishing(const std::string& plugin, int duration, int T) {
+    Case c;
+    bool mem = plugin == "memory_above";
+    c.name = plugin + " cgroup=v/* whose only match may be absent, duration=" + std::to_string(duration);
+    c.plugin = plugin;
+    c.argsJson = mem ? "\"cgroup\":\"v/*\",\"threshold\":\"1G\",\"duration\":\"" + std::to_string(duration) + "\""
+                     : "\"cgroup\":\"v/*\",\"resource\":\"memory\",\"threshold\":\"50\",\"duration\":\"" + std::to_string(duration) + "\"";
+    c.nLetters = 6;  // {absent, below, above} x dt {1,2}
+    c.T = T;
+    c.setup = [] { world::mkcg("v"); };
+    c.apply = [mem](int l, int) {
+      int v = l % 3;
+      if (v == 0) {
+        if (world::exists("v/a")) world::rmcg("v/a");
+      } else {
+        world::mkcg("v/a");
+        if (mem)
+          world::setMem("v/a", v == 2 ? GiB + 1 : GiB - 1);
+        else
+          setPress("v/a", "memory", v == 2 ? 60 : 40, 10, 5);
+      }
+      return 0.0;
+    };
+    c.dtOf = [](int l) { return l / 3 ? 2.0 : 1.0; };
+    c.expect = [duration](const std::vector<Sample>& h) {
+      size_t n = h.size() - 1;
+      for (size_t j = 0; j <= n; j++) {
+        if (std::floor(h[n].t - h[j].t) < duration) continue;
+        bool all = true;
+        for (size_t i = j; i <= n; i++) all &= (h[i].letter % 3) == 2;
+        if (all) return true;
+      }
+      return false;
+    };
+    c.letterName = [](int l) { return std::string(l % 3 == 0 ? "absent" : l % 3 == 1 ? "below" : "above") + (l / 3 ? "+2s" : "+1s"); };
+    cases.push_back(c);
+  }
   void addMemoryAbove(const std::string& thrText, long long thrBytes, bool anon, int duration, int T) {
     Case c;
     c.name = std::string("memory_above ") + (anon ? "threshold_anon" : "threshold") + "='" + thrText + "' (" + std::to_string(thrBytes) + " bytes) duration=" + std::to_string(duration);
@@ -352,6 +390,8 @@ struct C08 : vr::Driver {
     addMemoryAbove("10%", 16LL * GiB * 10 / 100, false, 2, 3);
     addMemoryAbove("3G", 3 * GiB, false, 0, 3);
     addMemoryAbove("5G", 5 * GiB, true, 2, 3);
+    for (int d : {0, 2, 3}) addVanishing("pressure_above", d, th ? 6 : 5);
+    for (int d : {0, 2, 3}) addVanishing("memory_above", d, th ? 6 : 5);
     for (int d : {0, 2}) addRisingBeyond(d, th ? 4 : 3);
     for (int d : {0, 2, 4}) addMemoryReclaim(d, th ? 5 : 4);
     for (int pct : {0, 15, 100}) addSwapFree(pct, -1, 2);
@@ -460,7 +500,7 @@ struct C08 : vr::Driver {
   std::string rule() override {
     return "for each detector configuration ALL histories of length T over its letter alphabet are executed through Oomd::run with the detector alone "
            "in a group: pressure_above (memory/io, duration 0/2/4; value below/equal/above threshold x clock advance 1/2/5 s; plus two cgroups with one "
-           "appearing and disappearing), memory_above (threshold as '1.5G 32K', bare MB, '10%', '3G', threshold_anon; value thr-1/thr/thr+1 x advance; largest of two "
+           "appearing and disappearing; plus a lone wildcard match that may be absent), memory_above (threshold as '1.5G 32K', bare MB, '10%', '3G', threshold_anon; value thr-1/thr/thr+1 x advance; largest of two "
            "cgroups), pressure_rising_beyond (avg60 around threshold x avg10 40/60/80/95 incl. fast falls x advance), memory_reclaim (pgscan grows or not x "
            "advance 1/2/5, duration 0/2/4, sum over two cgroups), swap_free (free below/equal/above pct, no swap, swap-out rate, pct 0/15/100), exists (5 "
            "patterns x negate over all subsets of {a,b,ab} + a matching plain file), nr_dying_descendants (count-1/count/count+1 for two cgroups, lte); oracle: the "
